@@ -1381,6 +1381,12 @@ func main() {
 	sb.WriteString("\nend Jl.Gen\n")
 	writeIfChanged(filepath.Join(*out, "Sites.lean"), sb.String())
 
+	// BEGIN value table
+	vt := valueTableOf(jp)
+	writeIfChanged(filepath.Join(*out, "ValueTable.lean"), vt.text)
+	fmt.Printf("Gen/ValueTable.lean: %d import rows, %d export rows, %d unknown in [%s]\n", vt.nImport, vt.nExport, vt.nU, strings.Join(vt.where, " "))
+	// END value table
+
 	if mp, err := loadPkg(filepath.Join(*repo, "cmd/jl"), "github.com/cgi-fr/jsonline/cmd/jl"); err == nil {
 		fr, tr := registries(mp)
 		var rb strings.Builder
